@@ -15,6 +15,20 @@ CHECKS = {
         design="5/C01",
     ),
 
+    "C03": dict(
+        category="exploration",
+        technique="runtime monitoring: pause-point controller forcing chosen preemptions inside begin_read/commit/abort/drop calls, jittered multi-thread stress, and a sequence-number history oracle (two tables written together by every commit) plus the ownership accountant",
+        text="For every call kind (durable 1PC/2PC/quick-repair and non-durable commit, abort, writer drop, begin_read, begin_write, savepoint create+drop inside a writer, Savepoint drop, Database drop with and without a live writer) a dry run lists the named pause points it passes; for every (call, point) x intruder call (full read, two begin_reads, drop of an older reader, drop of a savepoint, begin_write+commit, Database drop) x 4 database states the victim is parked at the point, the intruder's whole call runs on another thread, the victim resumes. Judged: a reader sees exactly one requested commit number in every key of both tables; a second writer never runs while one is live; commit numbers read inside transactions are consecutive; final state = last acknowledged commit (also after reopening when the Database was dropped); page accounting balances; no deadlock. Stress: 2-5 writers, 2-6 readers, savepoint dropper, jitter at all 31 points; per-reader monotonic, never older than an acknowledged commit, never an aborted value. Only the schedules forced or happened upon are covered.",
+        note="Trusted: the sequence-number oracle; OS scheduling between pause points is not controlled; blocked/ran is decided after 150 ms. Preemptions inside B-tree code are only those the OS produces.",
+        design="5/C03",
+    ),
+    "C16": dict(
+        category="exploration",
+        technique="runtime monitoring: one WriteTransaction shared by reference among per-table threads with forced preemptions at pause points in set_dirty, ephemeral_savepoint, commit and Savepoint::drop; per-thread reference models, ownership accountant, independent decoder and later savepoint restores as oracles",
+        text="Each case shares one WriteTransaction among 2-5 threads, one per table (plain and multimap), each applying a random stream checked against its own model, while other threads call ephemeral_savepoint() and drop savepoints; then abort or commit of any kind. Ten scripted modes park a worker inside its first table open, park ephemeral_savepoint() after its dirty check or after registering, park the commit between purge/epilogue steps while a Savepoint is dropped, and park Savepoint::drop while the commit runs. Judged: each table equals its thread's model; every page accounted exactly once (no page in two trees, allocated-pages records name only allocated pages); ephemeral_savepoint() succeeds only before any table open returned; a surviving savepoint restores its state and the books balance afterwards; check_integrity Ok(true); the closed file decodes. Interleavings inside B-tree code are those the OS produces.",
+        note="Trusted: per-thread models, harness/src/own.rs, harness/src/fmt.rs. TSan/Miri legs are described in DESIGN.md section 7.",
+        design="5/C16",
+    ),
     "C04": dict(
         category="exploration",
         technique="runtime monitoring: reference-model oracle (BTreeMap ordered by the key type) over generated operation sequences and threshold sweeps, with an independent file decoder at every sync",
